@@ -33,7 +33,9 @@ All == 1..Len(rows)
 Sum(T, f(_)) == FoldSet(LAMBDA i, acc : acc + f(i), 0, T)
 Wt(uw, i) == IF uw THEN Wof(rows[i]) ELSE 1
 
-Metrics == <<"sel", "tpr", "fpr", "fnr", "tnr", "acc", "prec", "zol">>
+Metrics == <<"sel", "tpr", "fpr", "fnr", "tnr", "acc", "prec", "zol", "smean">>
+\* "smean" is a SIGNED metric: the weighted mean of the per-row score (2*pred - 1) * (1 + y) in {-2, -1, 1, 2}
+NonNegMetrics == {"sel", "tpr", "fpr", "fnr", "tnr", "acc", "prec", "zol"}
 MetricSet == {Metrics[k] : k \in 1..Len(Metrics)}
 
 \* metric m on the row set T (weights used iff uw); Undef for the empty set
@@ -52,6 +54,7 @@ MetricOn(m, T, uw) ==
        [] m = "acc"  -> Frac(tp + tn, tp + fn + fp + tn)
        [] m = "prec" -> R0(tp, tp + fp)
        [] m = "zol"  -> Frac(fp + fn, tp + fn + fp + tn)
+       [] m = "smean" -> Frac(2 * tp + fp - 2 * fn - tn, tp + fn + fp + tn)
 
 Strata == {c \in 1..S : \E i \in All : Cof(rows[i]) = c}         \* observed control values
 Groups == {g \in 1..G : \E i \in All : Gof(rows[i]) = g}         \* observed sensitive values
@@ -66,11 +69,12 @@ GroupMin(m, c, uw) == MinSkip(CellVals(m, c, uw))
 GroupMax(m, c, uw) == MaxSkip(CellVals(m, c, uw))
 DiffBetween(m, c, uw) == Sub(GroupMax(m, c, uw), GroupMin(m, c, uw))
 DiffOverall(m, c, uw) == MaxSkip({AbsR(Sub(Cell(m, c, g, uw), Overall(m, c, uw))) : g \in Groups})
-RatioBetween(m, c, uw) == LET q == Div(GroupMin(m, c, uw), GroupMax(m, c, uw)) IN IF IsInf(q) THEN Undef ELSE q
+RatioBetween(m, c, uw) == LET q == Div(GroupMin(m, c, uw), GroupMax(m, c, uw)) IN IF IsInf(q) THEN Undef ELSE q     \* signed metrics: x/0 is not specified
 \* min(r, 1/r) with r = group/overall; r = +inf folds to 0, r undefined is skipped
 SubOne(r) == IF ~IsDef(r) THEN (IF IsInf(r) THEN Zero ELSE Undef)
              ELSE IF Lt(One, r) THEN Div(One, r) ELSE r
-RatioOverall(m, c, uw) == MinSkip({SubOne(Div(Cell(m, c, g, uw), Overall(m, c, uw))) : g \in Groups})
+RatioOverall(m, c, uw) == IF m \notin NonNegMetrics /\ Overall(m, c, uw) = Zero THEN Undef      \* signed metric, zero overall: not specified
+                          ELSE MinSkip({SubOne(Div(Cell(m, c, g, uw), Overall(m, c, uw))) : g \in Groups})
 
 \* ---- named fairness metrics (no control feature; evaluated in stratum 1 when S = 1) -------
 Agg(kind, method, m, uw) ==
@@ -99,14 +103,18 @@ Aggs == <<"worst_case", "mean">>
 \* ---- laws: the "hence" clauses of C02 follow from the definitions ---------------------------
 Two == <<2, 1>>
 NonNegDef(q) == IsDef(q) => Le(Zero, q)
-LawAggregates == rows # <<>> => \A m \in MetricSet, c \in Strata, uw \in BOOLEAN :
+LawAggregates == rows # <<>> => \A m \in NonNegMetrics, c \in Strata, uw \in BOOLEAN :
     /\ IsDef(GroupMin(m, c, uw)) /\ IsDef(GroupMax(m, c, uw)) /\ Le(GroupMin(m, c, uw), GroupMax(m, c, uw))
     /\ Le(Zero, DiffBetween(m, c, uw)) /\ Le(Zero, DiffOverall(m, c, uw))
     /\ IsDef(RatioBetween(m, c, uw)) => (Le(RatioBetween(m, c, uw), One) /\ Le(Zero, RatioBetween(m, c, uw)))
     /\ IsDef(RatioOverall(m, c, uw)) => (Le(RatioOverall(m, c, uw), One) /\ Le(Zero, RatioOverall(m, c, uw)))
     /\ Le(DiffBetween(m, c, uw), Mul(Two, DiffOverall(m, c, uw)))
 \* sample-weighted means of a per-row quantity: the overall value is a convex combination of the cells
-LawWeightedMean == rows # <<>> => \A m \in {"sel", "acc", "zol"}, c \in Strata, uw \in BOOLEAN :
+\* for every metric, signed ones included: difference >= 0, between <= 2 * to_overall, difference(between) = max - min
+LawSigned == rows # <<>> => \A m \in MetricSet, c \in Strata, uw \in BOOLEAN :
+    /\ Le(Zero, DiffBetween(m, c, uw)) /\ Le(Zero, DiffOverall(m, c, uw))
+    /\ Le(DiffBetween(m, c, uw), Mul(Two, DiffOverall(m, c, uw)))
+LawWeightedMean == rows # <<>> => \A m \in {"sel", "acc", "zol", "smean"}, c \in Strata, uw \in BOOLEAN :
     /\ Le(DiffOverall(m, c, uw), DiffBetween(m, c, uw))
     /\ Le(GroupMin(m, c, uw), Overall(m, c, uw)) /\ Le(Overall(m, c, uw), GroupMax(m, c, uw))
 \* cells partition the rows of their stratum
